@@ -41,7 +41,7 @@ def run(ctx):
     repo = ctx.repo
     ctx.decided = ['C09.1 cursor integrity', 'C09.2 code table agreement', 'C09.3 kind table agrees with log mode', 'C09.4 direction and struct-field roles',
                    'C09.5 time unit (see C16.1)']
-    ctx.undecided = ["what GDB's expression evaluator returns for the fixed-point formula (only the formula text is compared)", 'array element width']
+    ctx.undecided = ["what GDB's expression evaluator returns for the fixed-point formula (only the formula text is compared)", 'the true element type of an array (libwayland does not record it; int is assumed, consistently)']
     ctx.assumptions = ['nothing of GDB mode can be executed in this sandbox; all facts about libwayland are frozen tables']
     f = repo.func('extract.extract_message')
     site = f.loc()
